@@ -258,6 +258,14 @@ def contracts(tier):
     yield ("USBInTransferManager", "max8", make_in("manager", 8))
     yield ("USBStreamOutEndpoint", "max8", make_out(8))
     yield ("StandardRequestHandler", "blockram", make_req(False))
+    # caller side (parameter plumbing): the handler a control endpoint builds with add_standard_request_handlers() is the
+    # configuration contracted above (same registers, next-state and output functions, incl. clear_endpoint_halt)
+    from .c10_unsupported_requests_stall import make_handler_plumbing
+    yield ("USBControlEndpoint", "plumbing_standard_handler_is_contracted_unit",
+           make_handler_plumbing("endpoint", {"avoid_blockram": False}, {"avoid_blockram": False}, descriptors=descriptors, what=
+                                 "a CLEAR_FEATURE(ENDPOINT_HALT) request that completes resets ...: the StandardRequestHandler inside "
+                                 "USBControlEndpoint.add_standard_request_handlers(descriptors) is StandardRequestHandler(descriptors, "
+                                 "max_packet_size=64, avoid_blockram=False), the unit contracted in StandardRequestHandler/blockram"))
     if tier != "quick":
         yield ("USBStreamInEndpoint", "max64", make_in("endpoint", 64))
         yield ("USBStreamOutEndpoint", "max64", make_out(64))
